@@ -137,6 +137,19 @@ def replay_mode(R, binp):
             res["original_verifies"], res["mutated_verifies"], res.get("detail", "")))
         if res["original_verifies"] == "ok" and res["mutated_verifies"] == "ok":
             R.violation(rp.get("key", "mutation-verifies"), "replayed mutation still verifies: %s %s" % (inner["mutation"]["path"], inner["mutation"]["alt"]), inner)
+    elif inner.get("shape") and inner.get("combine_tamper"):
+        rc, out, od = vp.go_harness(PKG, run="TestCombineTamper", env_extra=env)
+        if rc != 0:
+            R.broke("correspondence:replay harness failed", out[-2000:])
+            R.finish()
+        res = json.load(open(os.path.join(od, "c12_combine_tamper.json"))) or []
+        R.coverage["evaluations"] = sum(2 * len(r.get("cases") or []) for r in res)
+        for r in res:
+            for f in (r.get("failures") or [])[:3]:
+                print("replay combine tamper: " + f)
+                R.violation(rp.get("key", "combine-accepts-altered-lock-copy"), f, inner)
+            if not r.get("failures"):
+                print("replay combine tamper %s: all %d directory sets with an altered/foreign lock copy refused" % (json.dumps(r["shape"]), len(r.get("cases") or [])))
     elif inner.get("shape"):
         rc, out, od = vp.go_harness(PKG, run="TestBlackbox", env_extra=env)
         if rc != 0:
@@ -176,7 +189,7 @@ def main():
     creator_defs = creator_signed_definitions(R)
     if creator_defs:
         env["VERIF_C12_CREATOR_DEFS"] = creator_defs
-    tests = "TestGenEnvs|TestMutate" + ("|TestBlackbox" if binp else "")
+    tests = "TestGenEnvs|TestMutate" + ("|TestBlackbox|TestCombineTamper" if binp else "")
     # hard cap: no seed may stall the run (the harness also has a per-case timeout and its own time budget)
     env["VERIF_BUDGET_S"] = 1500 if R.thorough else 110
     rc, out, od = vp.go_harness(PKG, run=tests, env_extra=env, timeout=2400 if R.thorough else 170)
@@ -206,6 +219,18 @@ def main():
                 rep["definition_file"] = r["input_definition"]
                 rep["command"] = "charon create cluster --insecure-keys --cluster-dir=<dir> --definition-file=<definition_file>"
             R.violation(key, "create cluster %s: %s" % (json.dumps({k: v for k, v in r["shape"].items() if k != "definition"}), f[-300:]), rep)
+
+    # (2b) combine against directory sets with one altered / foreign lock copy
+    ct = (json.load(open(os.path.join(od, "c12_combine_tamper.json"))) or []) if binp else []
+    ctcases = 0
+    for r in ct:
+        ctcases += 2 * len(r.get("cases") or [])
+        for f in (r.get("failures") or [])[:3]:
+            key = "combine-accepts-altered-lock-copy" if "accepted a directory set" in f else "blackbox:combine-tamper-setup"
+            R.violation(key, "combine after create cluster %s: %s" % (json.dumps(r["shape"]), f),
+                        {"shape": r["shape"], "combine_tamper": True, "failure": f,
+                         "how": "./check C12 --replay <this file>: create cluster of this shape, write the altered lock (stored lock_hash kept) into one node directory, run cmd/combine.Combine with verification"})
+    R.coverage["combine_tamper"] = [{"shape": r["shape"], "cases": r.get("cases")} for r in ct]
 
     # (3) mutations, decode/encode stability
     mu = json.load(open(os.path.join(od, "c12_mutate.json")))
@@ -242,11 +267,11 @@ def main():
             len(mu["panics"]), json.dumps(mu["panics"][:3])))
 
     triples = len({k for k in mu["coverage"]})
-    R.coverage["evaluations"] = ntv + mu["mutants"] + bchecks + mu["round_trips"]
+    R.coverage["evaluations"] = ntv + mu["mutants"] + bchecks + mu["round_trips"] + ctcases
     R.coverage["distinct_nontrivial"] = ntv - tvbad + triples + len(bb)
     R.coverage["rule"] = ("translation validation: (hash program, environment) pairs whose Coq-evaluated SHA-256 root equals the Go hash, golden files of all 12 versions + fresh signed locks + random edge-case shapes (field lengths 0/31/32/33/64/65/256, 0-9 deposit amounts, 0-7 operators, over-long fields that must fail) — each counts once; "
                           "mutation campaign: every JSON node of golden/fresh/create-cluster files x representative alterations (flip first/middle/last byte, append/prepend/drop a byte, empty, NUL, case, +-1, zero, negate, delete, array drop/dup/swap/empty); non-trivial = distinct (version, leaf pattern) pairs with at least one value-changing alteration judged; "
-                          "black box: create-cluster shapes from flags and from definition files of every version (nodes x threshold x validators x network x deposit-amount lists in every order with repeats x compounding x per-validator addresses x unsigned / creator-signed definition; operator-signed definitions must be REFUSED without writing a lock), each with input-definition == lock-definition, lock verification, key-share/public-share match, deposit and registration checks and combine of threshold subsets")
+                          "black box: create-cluster shapes from flags and from definition files of every version (nodes x threshold x validators x network x deposit-amount lists in every order with repeats x compounding x per-validator addresses x unsigned / creator-signed definition; operator-signed definitions must be REFUSED without writing a lock), each with input-definition == lock-definition, lock verification, key-share/public-share match, deposit and registration checks and combine of threshold subsets; combine tamper: one node directory holds a raw-edited lock copy (hashed field / signature_aggregate / node_signatures / validators reordered, stored lock_hash kept) or belongs to another cluster, at first/middle/last position: combine with verification must refuse")
     R.coverage["input_distribution"] = {
         "translation_validation": {"cases": ntv, "mismatches": tvbad, "per_program": progs},
         "mutation": {"files": mu["files"], "mutants": mu["mutants"], "rejected_by": mu["classes"], "per_alteration": mu["by_alt"],
